@@ -28,6 +28,7 @@ type schedCfg struct {
 	History  []c03scen.Req `json:"sequential_history_before,omitempty"`
 	Bound    int           `json:"preemption_bound"`
 	Stmt     bool          `json:"statement_points"`
+	AllStmt  bool          `json:"every_statement_is_a_point,omitempty"` // run in the worker built with -stmt all
 	BudgetS  int           `json:"budget_s"`
 	Seam     *seamCfg      `json:"cache_seam,omitempty"`
 	Schedule []int         `json:"schedule,omitempty"` // replay of one schedule only
@@ -102,6 +103,9 @@ func c03GenSched(tier string, emit func(c03Case)) {
 				} else {
 					emit(c03Case{Kind: "sched", Sched: &schedCfg{Shape: sh, Reqs: reqs, History: h, Bound: 2, Stmt: true, BudgetS: budget}})
 					emit(c03Case{Kind: "sched", Sched: &schedCfg{Shape: sh, Reqs: reqs, History: h, Bound: 3, Stmt: false, BudgetS: budget}})
+					if si%4 == n%4 {
+						emit(c03Case{Kind: "sched", Sched: &schedCfg{Shape: sh, Reqs: reqs, History: h, Bound: 1, Stmt: true, AllStmt: true, BudgetS: budget}})
+					}
 				}
 			}
 			n++
@@ -165,7 +169,15 @@ func c03RunSched(c c03Case, st *fw.Stats) []fw.Viol {
 	in, _ := json.Marshal(c.Sched)
 	// the worker runs under an address-space limit and a hard timeout: a runaway never takes the machine down
 	limit := c.Sched.BudgetS*4 + 120
-	cmd := exec.Command("/bin/sh", "-c", fmt.Sprintf("ulimit -v 12000000; exec timeout -k 5 %d \"$0\" C03-worker", limit), os.Args[0])
+	bin := os.Args[0]
+	if c.Sched.AllStmt {
+		bin = os.Getenv("VERIF_WORKER_ALL")
+		if bin == "" {
+			st.Cap("the every-statement worker binary was not built")
+			return nil
+		}
+	}
+	cmd := exec.Command("/bin/sh", "-c", fmt.Sprintf("ulimit -v 12000000; exec timeout -k 5 %d \"$0\" C03-worker", limit), bin)
 	cmd.Env = append(os.Environ(), "GOMAXPROCS=2")
 	cmd.Stdin = bytes.NewReader(in)
 	var out, errb bytes.Buffer
